@@ -223,7 +223,7 @@ def run(rep: common.Reporter, tier: str, prop: str) -> dict:
     calls = 0
     traces: list = []
     with mp.Pool(16) as pool:
-        for n, out, tr in pool.imap_unordered(_chunk, [(ch, texts, steps, record) for ch in common.chunked(seeds, 20)]):
+        for n, out, tr in common.gmap(pool, rep, _chunk, [(ch, texts, steps, record) for ch in common.chunked(seeds, 20)]):
             calls += n
             traces.extend(tr)
             for kind, msg, text, hist, sd in out:
